@@ -111,6 +111,8 @@ FNS = [
  ("RwCas", "strategy/rw_lock.rs", "<RwLock<()> as CaS<T>>::compare_and_swap"),
 ]
 def main():
+    # the query reads the compiled trees: rebuild them first (rs2lean must have been run on the current source)
+    subprocess.run(['lake', 'build', 'ArcSwapModel.Extract'], cwd=LEAN, capture_output=True, text=True)
     q = os.path.join('/tmp', 'gen_tie_query.lean')
     with open(q, 'w') as f:
         f.write('import ArcSwapModel.Extract\nopen Extract\ndef main : IO Unit := do\n')
